@@ -17,6 +17,8 @@ import (
 //   feat.classkey F     -> the grouping text fmt.Sprintf("%q:%q", Key, Props)
 //   c12.shape F…        -> the decidable guards of Gts/Spec/RepairGuard.lean (Go re-statement
 //                          below), one bit each
+//   feat.repair.sorted … , c12.sortshape, c12.k2.sorted: props_c12_sort.go (tables with a class
+//                          of more than 12 members, where sort.Sort is no longer insertion sort)
 //
 // Oracles on the real code, clauses (a)–(g) of the property; a failure is attributed to a
 // known finding only when the finding's shape (checked here, in Go) holds for the class /
@@ -203,6 +205,17 @@ func c12ShapeBits(ff []gts.Feature) string {
 	return b01(plain) + b01(noNil)
 }
 
+// c12HasComplClass: some class has two or more Complemented members (the shape of K12B).
+func c12HasComplClass(ff []gts.Feature) bool {
+	_, classes := c12Classes(ff, c12TextKey)
+	for _, idx := range classes {
+		if c12ClassShape(ff, idx).compl {
+			return true
+		}
+	}
+	return false
+}
+
 func c12HasJoin(ff []gts.Feature) bool {
 	for _, f := range ff {
 		if _, ok := f.Loc.(gts.Joined); ok {
@@ -361,10 +374,15 @@ func c12Locs(ff []gts.Feature, idx []int) []gts.Location {
 // oracles for one table: clauses (a)–(f)
 
 func c12Table(r *Run, ff []gts.Feature, tag string) {
-	line := c12Line("feat.repair", ff)
+	// a class of more than 12 members: the ops that carry what sort.Sort returned (props_c12_sort.go)
+	big := c12Big(ff)
+	line := c12RepairLine(ff, false)
 	got := r.op(line)
-	r.op(c12Line("feat.repair.rev", ff))
+	r.op(c12RepairLine(ff, true))
 	r.op(c12Line("c12.shape", ff))
+	if big {
+		c12SortOracles(r, ff, line)
+	}
 	r.count(fmt.Sprintf("%s/features%d", tag, minInt(len(ff), 8)))
 	_, tclasses := c12Classes(ff, c12TextKey)
 	maxc := 0
@@ -391,7 +409,7 @@ func c12Table(r *Run, ff []gts.Feature, tag string) {
 	fail := func(oracle, g, want string, at int, cover bool) {
 		f := Failure{Oracle: oracle, Op: line, Got: g, Want: want, Finding: c12Attribute(ff, at, cover)}
 		if cover && f.Finding == "" {
-			f.Guard = c12Line("c12.k2", ff)
+			f.Guard = c12K2Line(ff)
 		}
 		if proved {
 			f.Finding, f.Guard = "", ""
@@ -425,14 +443,21 @@ func c12Table(r *Run, ff []gts.Feature, tag string) {
 
 	// (b) idempotent
 	out2, p2 := c12Run(out)
-	r.op(c12Line("feat.repair", out))
+	r.op(c12RepairLine(out, false))
 	if p2 {
 		r.fail(Failure{Oracle: "(b) Repair is idempotent (second Repair panics)", Op: line, Got: "PANIC", Want: got})
 	} else if !c12TableEq(out2, out) {
-		// only a flattened join (written back unsorted) is known to break idempotence
+		// what is known to break idempotence is a class that is written back unsorted: a flattened
+		// join (K12G), or fused complemented members (K12B: the inner Join, always with force, can
+		// move the fused location to the right of where it was sorted;
+		// Gts.C12.idempotent_compl_refuted).  Beyond 12 members sort.Sort is not stable, and the
+		// second Repair may then also return ties elsewhere in the class in another order than the
+		// first did (Gts.C12.idempotent_with_full_refuted).  On plain tables idempotence is proved.
 		f := Failure{Oracle: "(b) Repair is idempotent", Op: line, Got: c12EncTable(out2), Want: got}
 		if hasJoin && !proved {
 			f.Finding = "K12G"
+		} else if !proved && c12HasComplClass(ff) {
+			f.Finding = "K12B"
 		}
 		r.fail(f)
 	}
@@ -839,11 +864,18 @@ func propC12(r *Run) {
 			g(gts.Joined{gts.Range(6, 15), gts.Between(6)})},
 		[]gts.Feature{g(gts.Range(0, 5)), g(gts.Range(6, 15)), g(gts.Between(6))},
 		[]gts.Feature{g(gts.Ambiguous{Start: 0, End: 5}), g(gts.Ambiguous{Start: 5, End: 9})},
+		// idempotent_compl_refuted
+		[]gts.Feature{g(gts.Complemented{Location: gts.Joined{gts.Range(1, 3), gts.PartialRange(3, 6, gts.Partial5), gts.PartialRange(6, 7, gts.Partial5)}}),
+			g(gts.PartialRange(1, 4, gts.Partial3)),
+			g(gts.Complemented{Location: gts.Joined{gts.Range(1, 3), gts.PartialRange(3, 6, gts.Partial5), gts.PartialRange(6, 7, gts.Partial5)}}),
+			g(gts.Complemented{Location: gts.Ambiguous{Start: 2, End: 3}})},
 		[]gts.Feature{g(gts.Range(0, 3)), g(gts.Range(3, 6)), g(gts.PartialRange(6, 8, gts.Partial3)),
 			g(gts.PartialRange(9, 12, gts.Partial5)), g(gts.PartialRange(1, 2, gts.PartialBoth)), g(gts.PartialRange(1, 2, gts.PartialBoth))},
 		[]gts.Feature{g(gts.Complemented{Location: gts.Range(0, 3)}), g(gts.Complemented{Location: gts.Range(5, 8)}),
 			g(gts.Between(3)), g(gts.PartialRange(8, 9, gts.Partial3)), g(gts.PartialRange(9, 12, gts.Partial5))},
 	)
+	// … and of Gts/Props/C12Sort.lean (ties; a 13-member class sorted by pdqsort)
+	fixed = append(fixed, c12SortFixed()...)
 	for _, ff := range fixed {
 		c12Table(r, ff, "fixed")
 	}
@@ -905,6 +937,19 @@ func propC12(r *Run) {
 		c12Table(r, ff, "random")
 		if t < 4 {
 			r.sample(c12Line("feat.repair", ff))
+		}
+	}
+
+	// classes beyond the insertion-sort threshold of sort.Sort (13..32 members), with ties
+	nBig := 400
+	if thorough {
+		nBig = 6000
+	}
+	for t := 0; t < nBig; t++ {
+		ff := c12GenBigTable(r.rng)
+		c12Table(r, ff, "big")
+		if t < 2 {
+			r.sample(c12RepairLine(ff, false))
 		}
 	}
 
